@@ -3,13 +3,13 @@
 //! `typecheck_partial_expr`), with a mock environment that knows `Bool`/`True`/`False` only
 //! (prelude off, no globals: "in scope" is then decided by the program text alone).
 use gluon_base::{
-    ast::{KindedIdent, RootExpr},
+    ast::RootExpr,
     fnv::FnvMap,
     kind::{ArcKind, Kind, KindEnv},
     metadata::{Metadata, MetadataEnv},
     source,
     symbol::{Symbol, SymbolModule, SymbolRef, Symbols},
-    types::{Alias, ArcType, PrimitiveEnv, Type, TypeCache, TypeEnv},
+    types::{Alias, ArcType, Field, PrimitiveEnv, Type, TypeCache, TypeEnv},
 };
 use gluon_check::{metadata, rename, typecheck::Typecheck};
 use gluon_completion::CompletionEnv;
@@ -23,10 +23,14 @@ pub struct MockEnv {
 impl MockEnv {
     pub fn new(interner: &mut Symbols) -> MockEnv {
         let bool_sym = interner.simple_symbol("Bool");
-        let bool_ty: ArcType = Type::ident(KindedIdent {
-            name: bool_sym.clone(),
-            typ: Kind::typ(),
-        });
+        // a real variant type: an alias to itself (as in the test-suite's mock) makes
+        // `remove_aliases` spin forever on programs such as `True x`
+        let t = interner.simple_symbol("True");
+        let f = interner.simple_symbol("False");
+        let bool_ty: ArcType = Type::variant(vec![
+            Field::ctor(t, std::iter::empty::<ArcType>()),
+            Field::ctor(f, std::iter::empty::<ArcType>()),
+        ]);
         MockEnv {
             bool_: Alias::new(bool_sym, Vec::new(), bool_ty),
         }
